@@ -193,7 +193,10 @@ func oracle(ops, outs []string) *corr.Violation {
 					charge = before.Reward
 				}
 				pay += charge
-				if n.Accts[C].Bal != p.Accts[C].Bal+pay || n.Accts[sc].Bal+pay != p.Accts[sc].Bal {
+				if _, there := after.Pools[C]; !there && n.Accts[C].Bal+dp.Bal == p.Accts[C].Bal+pay && dp.Bal > 0 {
+					// the unlock succeeded, the pool is gone, the minted reward arrived — but not the locked balance
+					mk("unlock-does-not-refund-stake", fmt.Sprintf("op %d %q: the delegate pool held %d (status deleted=%v) + reward %d + charge %d; the staker received %d, the stake stays in the contract wallet (%d -> %d) and the pool is gone: %s -> %s", i, op, dp.Bal, dp.Deleted, dp.Rew, charge, n.Accts[C].Bal-p.Accts[C].Bal, p.Accts[sc].Bal, n.Accts[sc].Bal, before.Raw, after.Raw))
+				} else if n.Accts[C].Bal != p.Accts[C].Bal+pay || n.Accts[sc].Bal+pay != p.Accts[sc].Bal {
 					mk("unlock-payout", fmt.Sprintf("op %d %q: pool %d + reward %d + charge %d = %d expected; staker %d -> %d, contract wallet %d -> %d", i, op, dp.Bal, dp.Rew, charge, pay, p.Accts[C].Bal, n.Accts[C].Bal, p.Accts[sc].Bal, n.Accts[sc].Bal))
 				}
 				if _, there := after.Pools[C]; there || !still {
@@ -217,6 +220,24 @@ func oracle(ops, outs []string) *corr.Violation {
 						mk("unlock-refused", fmt.Sprintf("op %d %q answered %s although %d owns a delegate pool: %s", i, op, status, C, before.Raw))
 					}
 				}
+			}
+		case "delauth":
+			// zcnsc delete-authorizer marks the delegate pools Deleted and pays nothing: no balance, no stake may move
+			if len(w) != 3 || p == nil || n == nil {
+				continue
+			}
+			rec := "authorizer:" + w[1]
+			if d := sameExcept(p, n, nil, rec); len(d) > 0 {
+				mk("delete-authorizer-touches-others", fmt.Sprintf("op %d %q changed %v", i, op, d))
+			}
+			before, after := p.SPs[rec], n.SPs[rec]
+			for id, dp := range before.Pools {
+				if a := after.Pools[id]; a.Bal != dp.Bal || a.Rew != dp.Rew {
+					mk("delete-authorizer-changes-stake", fmt.Sprintf("op %d %q: delegate %d %d/%d -> %d/%d", i, op, id, dp.Bal, dp.Rew, a.Bal, a.Rew))
+				}
+			}
+			if status != "ok" && after.Raw != before.Raw {
+				mk("failed-call-changed-state", fmt.Sprintf("op %d %q answered %s but changed %s -> %s", i, op, status, before.Raw, after.Raw))
 			}
 		case "collect":
 			if len(w) != 4 || p == nil || n == nil {
@@ -312,6 +333,13 @@ func fixed() [][]string {
 		// authorizer (before fc9e9de the first lock made the record unreadable for zcnsc: second lock and unlock refused)
 		{h, "reg authorizer 40 60 5 " + r, "dump", "lock authorizer 40 41 50000000000 1700000000", "dump", "lock authorizer 40 42 50000000000 1700000000", "dump",
 			"unlock authorizer 40 41 2000000000", "dump", "reward authorizer 40 1000", "dump", "collect authorizer 40 41", "dump"},
+		// authorizer removed while stake is locked: delete-authorizer marks the pools Deleted without paying; the stakers
+		// unlock afterwards and must get the locked balance (+ reward) back; a Deleted pool takes no further stake
+		{h, "reg authorizer 40 60 5 " + r, "dump", "lock authorizer 40 41 100000000000 1700000000", "dump", "lock authorizer 40 42 30000000000 1700000000", "dump",
+			"reward authorizer 40 11111111", "dump", "delauth 40 45", "dump", "delauth 40 3", "dump", "lock authorizer 40 41 10000000000 1700000000", "dump",
+			"lock authorizer 40 43 10000000000 1700000000", "dump", "unlock authorizer 40 41 2000000000", "dump", "collect authorizer 40 60", "dump",
+			"unlock authorizer 40 42 2000000000", "dump", "unlock authorizer 40 43 2000000000", "dump", "delauth 40 3", "dump"},
+		{h, "reg authorizer 40 60 5 " + r, "dump", "lock authorizer 40 60 50000000000 1700000000", "dump", "delauth 40 60", "dump", "unlock authorizer 40 60 2000000000", "dump"},
 		// miner and sharder, min lock period, the delegate wallet's service charge on unlock
 		{h, "reg miner 10 56 2 " + r, "reg sharder 20 58 10 " + r, "dump", "lock miner 10 41 50000000000 4102444800", "dump", "lock miner 10 56 30000000000 0", "dump",
 			"lock miner 10 43 30000000000 1700000000", "dump", "reward miner 10 777777", "dump", "unlock miner 10 41 2000000000", "dump", "unlock miner 10 56 2000000000", "dump",
